@@ -14,6 +14,18 @@ def fuzz(workers, runs, **kw):
 NOT_CLAIMED = {}
 
 PROPS = {
+    "C16": dict(
+        level="exploration",
+        technique="grammar-based property testing + libFuzzer on URI/path/query text in exact-size heap buffers under ASan; differential against an independent RFC 3986/7252 splitter; left-inverse (injectivity) and round-trip oracles for coap_get_uri_path/coap_get_query",
+        level_text="Generated valid URIs (all schemes, host forms, ports, escapes, dot segments), targeted invalid URIs, blind bytes and dangling escapes, and raw "
+                   "segment lists over the full byte alphabet; results compared with an independent splitter/decoder, every output buffer size tried, every input in a "
+                   "malloc(len) buffer so any overread is an ASan report.",
+        level_note="Trusted base: ref/refuri.h. Two documented slacks: a trailing '.'/'..' may or may not leave a final empty segment; an empty query ('?') may produce no Uri-Query. "
+                   "For malformed percent-escapes only memory safety is demanded.",
+        quick=rc(6, 60000) + fuzz(4, 200000, max_len=200),
+        thorough=rc(10, 1500000) + fuzz(6, 6000000, max_len=300),
+        assumptions=["RFC 7252 5.10.1 forbids Uri-Path values '.' and '..' so such lists are excluded from the feed-back round trip (not from injectivity)"],
+    ),
     "C01": dict(
         level="exploration",
         technique="model-based property testing (rapidcheck tape generator + libFuzzer) of the PDU-building API; byte-equality against an independent RFC encoder, round-trip through independent decoder and coap_pdu_parse",
